@@ -240,6 +240,44 @@ fn approx_infer(local: &str, v: &Val, imports: &[(String, Kind)]) -> String {
     short_name(&names, local)
 }
 
+/// every instance with an interface id inside `k` has exactly the kind that id has as a package
+/// import / interface definition of the library
+fn one_shape(lib: &[Package], k: &Kind) -> bool {
+    match k {
+        Kind::Func(_) => true,
+        Kind::Type(..) | Kind::IfaceTy(..) => false,
+        Kind::Inst(id, es) => {
+            if let Some(id) = id {
+                let mut found = false;
+                for p in lib {
+                    for (n, ik) in &p.imports {
+                        if n == id {
+                            if ik != k {
+                                return false;
+                            }
+                            found = true;
+                        }
+                    }
+                    for (_, ek) in &p.exports {
+                        if let Kind::Type(Some(tid), tes) = ek {
+                            if tid == id {
+                                if tes != es {
+                                    return false;
+                                }
+                                found = true;
+                            }
+                        }
+                    }
+                }
+                if !found {
+                    return false;
+                }
+            }
+            es.iter().all(|(_, ek)| one_shape(lib, ek))
+        }
+    }
+}
+
 impl<'a> Gen<'a> {
     fn fresh_local(&mut self, prefer: Option<&str>) -> String {
         if let Some(p) = prefer {
@@ -262,6 +300,9 @@ impl<'a> Gen<'a> {
         let names: Vec<&String> = es.iter().map(|(n, _)| n).collect();
         if is_ident(&seg) && short_name(&names, &seg) == en && self.r.chance(2, 3) {
             Expr::Access(Box::new(e), seg)
+        } else if seg != en && self.r.chance(1, 25) {
+            // the string form is exact: a short name does not select a path
+            Expr::NamedAccess(Box::new(e), seg)
         } else {
             Expr::NamedAccess(Box::new(e), en.to_string())
         }
@@ -375,7 +416,11 @@ impl<'a> Gen<'a> {
                     None => omitted = true,
                 },
                 5 | 6 => match self.gen_value(k, depth) {
-                    Some(e) => args.push(Arg::Named(ArgName::Str(n.clone()), e)),
+                    Some(e) => {
+                        // the string form is exact: a short name does not select a path
+                        let name = if seg != *n && self.r.chance(1, 25) { seg.clone() } else { n.clone() };
+                        args.push(Arg::Named(ArgName::Str(name), e))
+                    }
                     None => omitted = true,
                 },
                 7 => {
@@ -509,7 +554,11 @@ impl<'a> Gen<'a> {
                 _ => unreachable!(),
             }
         } else {
-            let others: Vec<(String, Val)> = self.locals.iter().filter(|(_, v)| matches!(v.kind, Kind::Func(_) | Kind::Inst(..))).cloned().collect();
+            // any other local, as long as every interface id inside its kind has the shape that
+            // id has as an import elsewhere (imports of one interface id are merged by the encoder;
+            // that merging is C03's subject, so the generator keeps one shape per interface id)
+            let lib = self.lib;
+            let others: Vec<(String, Val)> = self.locals.iter().filter(|(_, v)| matches!(v.kind, Kind::Func(_) | Kind::Inst(..)) && one_shape(lib, &v.kind)).cloned().collect();
             if others.is_empty() {
                 return;
             }
